@@ -6,3 +6,9 @@ claim("C11",
       "Decides, for every HTTP route registration in the program (all packages, all five GOOS builds in the thorough tier), that it goes through the one authenticated registrar or carries the auth wrapper, that only the statement's public routes lack it, that the method/content-type/control-lock guard and the auth decision closures let the handler run only on the accepted edges, and that every server serves only that mux. "
       "This is the 'programs' quantifier of the property (every route registered anywhere) decided completely; the 'inputs' quantifier (request shapes) is decided only as far as the guards' CFG shape: URL normalisation, cookie/credential values and expiry are not decided.",
       "DESIGN.md §5 C11")
+
+claim("C14",
+      "exhaustive census of file-write primitive call sites + backward provenance slice of the path argument + must-reach typestate on SSA (static analysis)",
+      "Decides that no code path can hand a path derived from the configuration file, the lease database or a filter-list file to anything but the atomic replace primitives (renameio via maybe.WriteFile / aghrenameio pending files), that each of the three keeps an atomic writer, that the unix wrappers resolve to renameio's temp-file + atomic-rename calls, and that a pending file is always closed-and-replaced or cleaned up. "
+      "This is the structural necessary condition for the crash_points quantifier: replacing the atomic writer by a truncate-and-write, or renaming the live file away before the replace, is exactly what tests cannot see and what the rule reports. The crash semantics of rename/fsync themselves (renameio, the filesystem) are trusted, and Windows is out of scope as documented upstream.",
+      "DESIGN.md §5 C14")
